@@ -668,6 +668,8 @@ def rdsystem_from_dict(d, parent_units_system=UnitsSystem(), base_path=None):
         else :
             raise ValueError("space type is unexpected.")
         da["space"] = space        
+    else :
+        da["space"] = RDGridSpace(units_system=da["units_system"])
         
     if "state" in d :
         state = d["state"]
